@@ -263,8 +263,11 @@ def make_cases(pid, seed, n, start=0, profile_override=None):
         prof.update(profile_override)
     for i in range(start, start + n):
         c, g = gen_exec.gen_case("%s-%d" % (pid, seed), i, prof)
-        # C11/C12 streams alternate the store behaviour (the caller-owned static store returns whole accounts)
-        store = ["exact", "static", "superset", "sparse"][i % 4] if pid in ("C11", "C12") else "exact"
+        # every stream alternates the store behaviour: answers exactly what was asked (zeros included), the
+        # caller-owned static store (whole accounts), everything it holds, or only the non-zero entries asked for
+        # (C10 keeps the exact store as base: its extra runs derive the set of requested pairs from the base run)
+        store = ["exact", "static", "superset", "sparse"][i % 4] if pid in ("C11", "C12") else \
+            "exact" if pid == "C10" else ["exact", "sparse", "exact", "static", "exact", "superset"][i % 6]
         c.update({"id": i, "op": "exec", "store": store, "failAt": -1, "perStmt": True})
         cases.append(c)
         gens.append(g)
